@@ -218,6 +218,14 @@ def run_programs(ctx, drv, conv, progs):
           if V is None:
             continue
           sc['vars'] = V
+          if ctx.rng.random() < 0.3:
+            # an EMPTY placeholder (a collection, or a submodule's subtree in it) that is mutable: the call creates state there
+            ph = S.gen_empty_placeholder(ctx.rng, V)
+            if ph is not None:
+              V2, empties, col = ph
+              sc.update(vars=V2, empties=empties, frozen=ctx.rng.random() < 0.15, ncalls=ctx.rng.choice([2, 2, 3]),
+                        rngs=True, mutable=ctx.rng.choice([col, True, [col], {'deny': 'intermediates'}, sc['mutable']]))
+              ctx.count('empty_placeholder', f'depth{len(empties[0]) - 1 if empties else 0}')
         sc['_rng'] = ctx.rng
         o = S.run_scenario(R, sc)
         if sc['kind'] == 'init' and o['result'][0] == 'ok' and o['result'][2] is not None and not o['result'][3]:
